@@ -1,11 +1,8 @@
 package main
 
 import (
-	"bufio"
 	"fmt"
 	"os"
-	"path/filepath"
-	"strconv"
 )
 
 var allEncNames = []string{"I8", "I16", "I32", "I64", "U16", "U32", "U64", "Int", "S16", "B3", "TE", "Dummy"}
@@ -35,37 +32,14 @@ func genTrieCase(r *RNG, id string, kind, vkind int, scale, qbudget int) *TrieCa
 	return c
 }
 
-func mustCreate(path string) (*os.File, *bufio.Writer) {
-	os.MkdirAll(filepath.Dir(path), 0o755)
-	f, err := os.Create(path)
-	if err != nil {
-		panic(err)
-	}
-	return f, bufio.NewWriterSize(f, 1<<20)
-}
-
 func main() {
 	if len(os.Args) < 2 {
 		fmt.Fprintln(os.Stderr, "usage: harness <cmd> ...")
 		os.Exit(2)
 	}
 	switch os.Args[1] {
-	case "trie-smoke":
-		seed, _ := strconv.ParseUint(os.Args[2], 10, 64)
-		n, _ := strconv.Atoi(os.Args[3])
-		out := os.Args[4]
-		r := NewRNG(seed)
-		fc, wc := mustCreate(filepath.Join(out, "cases.txt"))
-		fi, wi := mustCreate(filepath.Join(out, "impl.txt"))
-		for i := 0; i < n; i++ {
-			c := genTrieCase(r.Fork(), fmt.Sprintf("s%d", i), r.Intn(KKindCnt), r.Intn(VKindCnt), 1, 60)
-			c.WriteCase(wc)
-			c.RunImpl(wi)
-		}
-		wc.Flush()
-		wi.Flush()
-		fc.Close()
-		fi.Close()
+	case "genconsts":
+		genConsts(os.Args[2])
 	default:
 		if !runProp(os.Args[1:]) {
 			fmt.Fprintln(os.Stderr, "unknown command", os.Args[1])
